@@ -123,9 +123,16 @@ func gkey(byName bool, name string, dims []string, tags models.Tags) string {
 	if byName {
 		b, n = "1", kit.Esc(name)
 	}
-	ps := make([]string, len(dims))
-	for i, d := range dims {
-		ps[i] = kit.Esc(d) + "=" + kit.Esc(tags[d])
+	// a dimension listed twice (groupBy('host','host')) spells the same group: the window node collapses the
+	// duplicate when it builds the batch header, so the key lists every dimension once
+	var ps []string
+	seen := map[string]bool{}
+	for _, d := range dims {
+		if seen[d] {
+			continue
+		}
+		seen[d] = true
+		ps = append(ps, kit.Esc(d)+"="+kit.Esc(tags[d]))
 	}
 	l := "-"
 	if len(ps) > 0 {
